@@ -13,6 +13,8 @@ pub struct ElemObs {
     pub alias: Option<String>,
     pub out: Vec<i64>,
     pub inn: Vec<i64>,
+    pub cnt_from: u64,
+    pub cnt_to: u64,
     pub kvs: Vec<DbKeyValue>,
 }
 
@@ -68,7 +70,14 @@ pub fn observe<S: StorageData>(db: &DbImpl<S>) -> Obs {
                         destination: QueryId::Id(DbId(id)), limit: 0, offset: 0, order_by: vec![], conditions: dist1() }), &mut errors, "in");
                     (o, i)
                 } else { (vec![], vec![]) };
-                elems.push(ElemObs { id, from: e.from.0, to: e.to.0, alias, out, inn, kvs });
+                let cnt = |from: bool, to: bool, errors: &mut Vec<String>| -> u64 {
+                    match db.exec(SelectEdgeCountQuery { ids: QueryIds::Ids(vec![QueryId::Id(DbId(id))]), from, to }) {
+                        Ok(r) => r.result,
+                        Err(er) => { errors.push(format!("edge_count {}: {}", id, er.description)); 0 }
+                    }
+                };
+                let (cnt_from, cnt_to) = if id > 0 { (cnt(true, false, &mut errors), cnt(false, true, &mut errors)) } else { (0, 0) };
+                elems.push(ElemObs { id, from: e.from.0, to: e.to.0, alias, out, inn, cnt_from, cnt_to, kvs });
             }
         }
     }
@@ -118,7 +127,7 @@ pub fn show_obs(o: &Obs, normalise: bool) -> String {
         if e.id > 0 {
             let (mut out, mut inn) = (e.out.clone(), e.inn.clone());
             if normalise { out.sort(); inn.sort(); }
-            s.push_str(&format!(" a={} out=[{}] in=[{}]", alias, zl(&out), zl(&inn)));
+            s.push_str(&format!(" a={} out=[{}] in=[{}] c={:x}/{:x}", alias, zl(&out), zl(&inn), e.cnt_from, e.cnt_to));
         } else {
             s.push_str(&format!(" f={} t={}", ihex_pub(e.from), ihex_pub(e.to)));
             if alias != "-" { s.push_str(&format!(" a={}", alias)); }
@@ -164,6 +173,9 @@ pub fn invariants(o: &Obs) -> Vec<(String, String)> {
         out.sort(); inn.sort(); exp_out.sort(); exp_in.sort();
         if out != exp_out { bad.push(("graph-out-list".into(), format!("node {} outgoing {:?} expected {:?}", e.id, out, exp_out))); }
         if inn != exp_in { bad.push(("graph-in-list".into(), format!("node {} incoming {:?} expected {:?}", e.id, inn, exp_in))); }
+        if e.cnt_from != exp_out.len() as u64 || e.cnt_to != exp_in.len() as u64 {
+            bad.push(("graph-edge-count".into(), format!("node {} reports edge counts from={} to={} but has {} outgoing and {} incoming edges", e.id, e.cnt_from, e.cnt_to, exp_out.len(), exp_in.len())));
+        }
     }
     // aliases: one-to-one onto existing nodes, and agree with per-element lookup
     let mut seen_ids = BTreeSet::new();
